@@ -165,19 +165,29 @@ Proof.
   destruct (deser p); discriminate.
 Qed.
 
-Lemma poll_frame_no_panic a (d : dec) : poll_frame a d <> FPanic.
+(* the only reachable panic site: HeaderMap::extend of a second trailers block *)
+Lemma poll_frame_panic a (d : dec) : poll_frame a d = FPanic ->
+  exists t, a = AFrame (FTrailers t) /\ extend_may_panic (d_trailers d) t = true.
 Proof.
   destruct a as [|f|st|]; cbn.
   - discriminate.
-  - destruct f; cbn; discriminate.
+  - destruct f as [b|t]; cbn; [discriminate|]. destruct (extend_may_panic _ _) eqn:E; [eauto|discriminate].
   - destruct (_ && _); discriminate.
-  - destruct (_ || _); discriminate.
+  - destruct (is_incomplete d); discriminate.
+Qed.
+Lemma poll_frame_end_no_panic (d : dec) : poll_frame AEnd d <> FPanic.
+Proof. intros H. apply poll_frame_panic in H as (t & E & _). discriminate. Qed.
+
+Lemma response_cases (d : dec) :
+  response d = (inl tt, d) \/ exists e, response d = (inr e, with_trailers d None).
+Proof.
+  unfold response. destruct (d_dir d); auto. destruct (infer_grpc_status _ _) as [[]|[e|]]; eauto.
 Qed.
 
 Lemma after_none_no_panic (d : dec) : fst (after_none d) <> Panic.
 Proof.
-  unfold after_none, response. destruct (d_dir d); try (cbn; discriminate).
-  destruct (infer_grpc_status _ _) as [|[e|]]; cbn; discriminate.
+  unfold Decoder.after_none. destruct (response_cases d) as [->|[e ->]]; [|cbn; discriminate].
+  destruct (_ && _); cbn; discriminate.
 Qed.
 
 
@@ -209,7 +219,10 @@ Inductive Poll : list bev -> bstat -> dec -> pres -> dec -> list bev -> bstat ->
     Poll (ev :: evs) g d r d3 evs g
 | P_ferr ev evs g d d1 st d2 : non_error d -> decode_chunk d = KNone d1 ->
     poll_frame (answer_of ev) d1 = FErr st d2 ->
-    Poll (ev :: evs) g d (Item (IErr st)) (with_state d2 (Error None)) evs g.
+    Poll (ev :: evs) g d (Item (IErr st)) (with_state d2 (Error None)) evs g
+| P_panic ev evs g d d1 : non_error d -> decode_chunk d = KNone d1 ->
+    poll_frame (answer_of ev) d1 = FPanic ->
+    Poll (ev :: evs) g d Panic d1 evs g.
 
 Lemma poll_next_Poll evs : forall g d r d' evs' g',
   poll_next evs g d = (r, d', evs', g') -> Poll evs g d r d' evs' g'.
@@ -221,9 +234,9 @@ Proof.
     all: pose proof (decode_chunk_no_panic d) as NP.
     all: destruct (decode_chunk d) as [|st d1|d1|m d1] eqn:DC; try congruence.
     all: try (intros H; injection H as <- <- <- <-; econstructor; eassumption).
-    all: pose proof (poll_frame_no_panic AEnd d1) as NF.
+    all: pose proof (poll_frame_end_no_panic d1) as NF.
     all: destruct (poll_frame AEnd d1) as [| |d2|d2|st d2] eqn:PF; try congruence.
-    all: try (cbn in PF; destruct (_ || _); discriminate).
+    all: try (cbn in PF; destruct (is_incomplete d1); discriminate).
     all: try (destruct (after_none d2) as [r0 d3] eqn:AN; intros H; injection H as <- <- <- <-;
               eapply P_end_none; eassumption).
     all: intros H; injection H as <- <- <- <-; eapply P_end_err; eassumption.
@@ -233,8 +246,7 @@ Proof.
     all: pose proof (decode_chunk_no_panic d) as NP.
     all: destruct (decode_chunk d) as [|st d1|d1|m d1] eqn:DC; try congruence.
     all: try (intros H; injection H as <- <- <- <-; econstructor; eassumption).
-    all: pose proof (poll_frame_no_panic (answer_of ev) d1) as NF.
-    all: destruct (poll_frame (answer_of ev) d1) as [| |d2|d2|st d2] eqn:PF; try congruence.
+    all: destruct (poll_frame (answer_of ev) d1) as [| |d2|d2|st d2] eqn:PF.
     all: try (intros H; injection H as <- <- <- <-; econstructor; eassumption).
     all: try (intros H; apply IH in H; eapply P_some; eassumption).
     all: destruct (after_none d2) as [r0 d3] eqn:AN; intros H; injection H as <- <- <- <-;
@@ -244,43 +256,10 @@ Qed.
 Lemma after_none_cases (d : dec) r d3 : after_none d = (r, d3) ->
   r = Done \/ (exists e, r = Item (IErr e) /\ d_state d3 = Error None).
 Proof.
-  unfold after_none. destruct (response d) as [[u|e] d'']; intros H; injection H as <- <-; [left|right]; eauto.
+  unfold Decoder.after_none. destruct (response d) as [[u|e] d''].
+  - destruct (_ && _); intros H; injection H as <- <-; [right|left]; eauto.
+  - intros H; injection H as <- <-. right. eauto.
 Qed.
-
-Lemma Poll_no_panic evs g d r d' evs' g' : Poll evs g d r d' evs' g' -> r <> Panic.
-Proof.
-  induction 1; try discriminate; try assumption.
-  - destruct st; discriminate.
-  - destruct (after_none_cases _ _ _ H2) as [->|[e [-> _]]]; discriminate.
-  - destruct (after_none_cases _ _ _ H2) as [->|[e [-> _]]]; discriminate.
-Qed.
-
-Lemma poll_next_no_panic evs g d r d' evs' g' :
-  poll_next evs g d = (r, d', evs', g') -> r <> Panic.
-Proof. intros H. eapply Poll_no_panic, poll_next_Poll, H. Qed.
-Lemma polls_no_panic n : forall evs g d, ~ In Panic (fst (polls n evs g d)).
-Proof.
-  induction n as [|n IH]; intros evs g d; cbn [Decoder.polls]; [intros []|].
-  unfold Decoder.dec_poll. destruct (poll_next evs g d) as [[[r d'] evs'] g'] eqn:P.
-  specialize (IH evs' g' d'). destruct (polls n evs' g' d') as [tr fin]. cbn [fst] in *.
-  intros [H|H]; [|exact (IH H)]. exact (poll_next_no_panic _ _ _ _ _ _ _ P H).
-Qed.
-
-Lemma drain_no_panic fuel : forall evs g d, ~ In Panic (fst (drain fuel evs g d)).
-Proof.
-  induction fuel as [|n IH]; intros evs g d; cbn [Decoder.drain]; [intros []|].
-  unfold Decoder.dec_poll. destruct (poll_next evs g d) as [[[r d'] evs'] g'] eqn:P.
-  pose proof (poll_next_no_panic _ _ _ _ _ _ _ P) as NP.
-  specialize (IH evs' g' d'). destruct (drain n evs' g' d') as [tr fin]. cbn [fst] in *.
-  destruct r; cbn [fst]; try (intros [H|H]; [congruence | exact (IH H)]).
-  intros [H|[]]. discriminate.
-Qed.
-
-(* C07 dec_no_panic: from ANY decoder state (not only a fresh one), for any script and any
-   number of polls, no poll takes a panicking branch. *)
-Theorem dec_no_panic : forall n evs g (d : dec),
-  ~ In Panic (fst (polls n evs g d)) /\ ~ In Panic (fst (drain n evs g d)).
-Proof. intros. split; [apply polls_no_panic | apply drain_no_panic]. Qed.
 
 (* ============================ C07: the first error is final ============================ *)
 Definition is_error_none (d : dec) : Prop := d_state d = Error None.
@@ -330,14 +309,17 @@ Proof.
 Qed.
 
 Lemma Poll_used evs g d r d' evs' g' : Poll evs g d r d' evs' g' ->
-  exists used, evs = used ++ evs' /\ (r = Pending -> (1 <= length used)%nat).
+  exists used, evs = used ++ evs' /\ (r = Pending \/ r = Panic -> (1 <= length used)%nat).
 Proof.
-  induction 1; try (exists []; split; [reflexivity|]; intros; subst; try discriminate).
+  induction 1; try (exists []; split; [reflexivity|]; intros [?|?]; subst; try discriminate).
   - destruct st; discriminate.
+  - destruct st; discriminate.
+  - destruct (after_none_cases _ _ _ H2) as [E|[e [E _]]]; congruence.
   - destruct (after_none_cases _ _ _ H2) as [E|[e [E _]]]; congruence.
   - exists [ev]. split; [reflexivity|]. cbn. lia.
   - destruct IHPoll as (used & -> & Hp). exists (ev :: used). split; [reflexivity|].
     intros E. specialize (Hp E). cbn [length]. lia.
+  - exists [ev]. split; [reflexivity|]. cbn. lia.
   - exists [ev]. split; [reflexivity|]. cbn. lia.
   - exists [ev]. split; [reflexivity|]. cbn. lia.
 Qed.
@@ -491,13 +473,14 @@ Proof.
     { apply budget_live. intros E. destruct (Poll_from_error_none _ _ _ _ _ _ _ P E) as [-> _].
       apply ND. now left. }
     destruct r as [|[m|st]| |].
-    + specialize (HP eq_refl). cbn [oks_of flat_map app]. fold (oks_of tr).
+    + specialize (HP (or_introl eq_refl)). cbn [oks_of flat_map app]. fold (oks_of tr).
       pose proof (budget_le d1). lia.
     + cbn [oks_of flat_map app length]. pose proof (budget_le d1). fold (oks_of tr). lia.
     + assert (budget d1 = 0%nat) by (apply budget_error_none; eapply Poll_err_state; eauto).
       cbn [oks_of flat_map app]. fold (oks_of tr). lia.
     + exfalso. apply ND. now left.
-    + exfalso. eapply Poll_no_panic; eauto.
+    + specialize (HP (or_intror eq_refl)). cbn [oks_of flat_map app]. fold (oks_of tr).
+      pose proof (budget_le d1). lia.
 Qed.
 
 (* ---------- the ended body is observed at most once per drain ---------- *)
@@ -779,7 +762,8 @@ Qed.
 Lemma poll_frame_pending ev (d1 : dec) : poll_frame (answer_of ev) d1 = FPending -> ev = BPending.
 Proof.
   destruct ev as [|b|t|st]; cbn; try discriminate; auto.
-  destruct (_ && _); discriminate.
+  - destruct (extend_may_panic _ _); discriminate.
+  - destruct (_ && _); discriminate.
 Qed.
 
 Lemma poll_frame_some ev (d1 d2 : dec) : poll_frame (answer_of ev) d1 = FSome d2 ->
@@ -787,6 +771,7 @@ Lemma poll_frame_some ev (d1 d2 : dec) : poll_frame (answer_of ev) d1 = FSome d2
 Proof.
   destruct ev as [|b|t|st]; cbn; try discriminate.
   - intros H; injection H as <-. eauto.
+  - destruct (extend_may_panic _ _); discriminate.
   - destruct (_ && _); discriminate.
 Qed.
 
@@ -798,14 +783,29 @@ Lemma poll_frame_none ev (d1 d2 : dec) : poll_frame (answer_of ev) d1 = FNone d2
    (exists st, ev = BErr st /\ d2 = d1)).
 Proof.
   destruct ev as [|b|t|st]; cbn; try discriminate.
-  - intros H; injection H as <-. cbn. repeat split. left. eauto.
+  - destruct (extend_may_panic _ _); [discriminate|]. intros H; injection H as <-. cbn. repeat split. left. eauto.
   - destruct (_ && _); [|discriminate]. intros H; injection H as <-. repeat split. right. eauto.
+Qed.
+
+Lemma poll_frame_ferr ev (d1 d2 : dec) st : poll_frame (answer_of ev) d1 = FErr st d2 ->
+  ev = BErr st /\ d2 = with_state d1 (Error (Some st)).
+Proof.
+  destruct ev as [|b|t|st']; cbn; try discriminate.
+  - destruct (extend_may_panic _ _); discriminate.
+  - destruct (_ && _); [discriminate|]. intros H; injection H as <- <-. auto.
+Qed.
+
+Lemma poll_frame_panic_ev ev (d1 : dec) : poll_frame (answer_of ev) d1 = FPanic ->
+  exists t, ev = BTrailers t /\ extend_may_panic (d_trailers d1) t = true.
+Proof.
+  intros H. apply poll_frame_panic in H as (t & E & X). destruct ev; try discriminate.
+  injection E as ->. eauto.
 Qed.
 
 Lemma poll_frame_end_none (d1 d2 : dec) : poll_frame AEnd d1 = FNone d2 ->
   d2 = d1 /\ d_buf d1 = [] /\ forall c l, d_state d1 <> ReadBody c l.
 Proof.
-  cbn. destruct (d_buf d1); [|discriminate]. destruct (d_state d1); cbn; try discriminate;
+  cbn. unfold is_incomplete. destruct (d_buf d1); [|discriminate]. destruct (d_state d1); cbn; try discriminate;
     intros H; injection H as <-; repeat split; discriminate.
 Qed.
 
@@ -813,10 +813,19 @@ Lemma after_none_effect (d : dec) r d3 : after_none d = (r, d3) ->
   d_encoding d3 = d_encoding d /\
   (non_error d3 -> d_state d3 = d_state d /\ d_buf d3 = d_buf d /\ d_max d3 = d_max d).
 Proof.
-  unfold Decoder.after_none, response. destruct (d_dir d).
-  1,3: intros H; injection H as <- <-; auto.
-  destruct (infer_grpc_status _ _) as [u|[e|]]; intros H; injection H as <- <-; cbn; auto.
-  split; [reflexivity|]. intros [].
+  unfold Decoder.after_none. destruct (response_cases d) as [->|[e ->]].
+  - destruct (_ && _); intros H; injection H as <- <-; cbn; auto. split; [reflexivity|]. intros [].
+  - intros H; injection H as <- <-. cbn. split; [reflexivity|]. intros [].
+Qed.
+
+(* a clean end: the status is not an error and, when trailers are present, no message is cut *)
+Lemma after_none_done (d : dec) d3 : after_none d = (Done, d3) ->
+  d3 = d /\ (d_trailers d = None \/ is_incomplete d = false).
+Proof.
+  unfold Decoder.after_none. destruct (response_cases d) as [->|[e ->]]; [|discriminate].
+  destruct (d_trailers d); cbn [andb].
+  - destruct (is_incomplete d); [discriminate|]. intros H; injection H as <-. auto.
+  - intros H; injection H as <-. auto.
 Qed.
 
 Lemma rest_ext (d d' : dec) : d_state d' = d_state d -> d_buf d' = d_buf d -> rest d' = rest d.
@@ -927,7 +936,7 @@ Proof.
   - (* P_end_err *)
     exists []. split; [reflexivity|]. cbn [data_of map concat]. rewrite app_nil_r.
     destruct (knone_inv _ _ _ _ _ _ I H H0) as (I1 & NE1 & SC).
-    apply (Inv_dead e0 d1); auto. cbn in H1. destruct (_ || _); [|discriminate].
+    apply (Inv_dead e0 d1); auto. cbn in H1. destruct (is_incomplete d1); [|discriminate].
     injection H1 as _ <-. reflexivity.
   - (* P_pending *)
     apply poll_frame_pending in H1 as ->.
@@ -959,11 +968,13 @@ Proof.
   - (* P_ferr *)
     destruct (knone_inv _ _ _ _ _ _ I H H0) as (I1 & NE1 & SC).
     exists [ev]. split; [reflexivity|].
-    assert (DE : data_of [ev] = []).
-    { destruct ev; cbn in H1; try discriminate; reflexivity. }
-    rewrite DE, app_nil_r. apply (Inv_dead e0 d1); auto.
-    destruct ev; cbn in H1; try discriminate. destruct (_ && _); [discriminate|].
-    injection H1 as _ <-. reflexivity.
+    apply poll_frame_ferr in H1 as (-> & ->).
+    cbn [data_of map concat app]. rewrite app_nil_r. apply (Inv_dead e0 d1); auto.
+  - (* P_panic *)
+    destruct (knone_inv _ _ _ _ _ _ I H H0) as (I1 & NE1 & SC).
+    apply poll_frame_panic_ev in H1 as (t & -> & _).
+    exists [BTrailers t]. split; [reflexivity|].
+    cbn [data_of map concat app]. rewrite app_nil_r. exact I1.
 Qed.
 
 Lemma oks_of_cons (r : pres) t : oks_of (r :: t) = match r with Item (IOk m) => [m] | _ => [] end ++ oks_of t.
@@ -1253,11 +1264,16 @@ Proof.
 Qed.
 
 
-Lemma after_none_ok (d : dec) : resp_ok (d_dir d) (d_trailers d) -> after_none d = (Done, d).
+Lemma after_none_ok (d : dec) :
+  resp_ok (d_dir d) (d_trailers d) -> is_incomplete d = false -> after_none d = (Done, d).
 Proof.
-  unfold resp_ok, Decoder.after_none, response. destruct (d_dir d); try reflexivity.
-  destruct (infer_grpc_status _ _) as [u|[e|]]; [reflexivity|intros []|reflexivity].
+  intros R Inc. unfold Decoder.after_none, resp_ok, response in *. destruct (d_dir d).
+  1,3: now rewrite Inc, andb_false_r.
+  destruct (infer_grpc_status _ _) as [u|[e|]]; [|destruct R|]; now rewrite Inc, andb_false_r.
 Qed.
+
+Lemma not_incomplete (d : dec) : d_buf d = [] -> d_state d = ReadHeader -> is_incomplete d = false.
+Proof. unfold is_incomplete. now intros -> ->. Qed.
 
 
 
@@ -1268,6 +1284,9 @@ Variable dir0 : direction.
 Variable tr0 : option hm.
 Variable term : list bev.
 Hypothesis TERM : term_ok dir0 tr0 term.
+(* merging the final trailers into earlier ones must stay inside http's HeaderMap capacity
+   (trivially true for a fresh stream: tr0 = None) *)
+Hypothesis NOPANIC : forall t, term = [BTrailers t] -> extend_may_panic tr0 t = false.
 
 Definition J (d : dec) (evs : list bev) (fs : list (N * list N)) (ms : list msg) : Prop :=
   non_error d /\ wf d /\ d_encoding d = e0 /\ limit_of d = lim /\ d_dir d = dir0 /\
@@ -1353,11 +1372,12 @@ Proof.
     + destruct (Hn eq_refl) as (-> & -> & B1 & S1).
       destruct J1 as (NE1 & _ & _ & _ & Dr1 & T1 & _).
       destruct TERM as [[Ht RO]|(t & Ht & RO)].
-      * eapply PO_done; auto. rewrite Ht. cbn [app]. rewrite (poll_next_knone_nil _ _ _ (proj1 Jd) DC). cbn [poll_frame]. rewrite B1, S1. cbn [orb].
-        rewrite after_none_ok by (now rewrite Dr1, T1). reflexivity.
+      * eapply PO_done; auto. rewrite Ht. cbn [app]. rewrite (poll_next_knone_nil _ _ _ (proj1 Jd) DC).
+        cbn [poll_frame]. rewrite (not_incomplete d1 B1 S1).
+        rewrite after_none_ok; [reflexivity | now rewrite Dr1, T1 | exact (not_incomplete d1 B1 S1)].
       * eapply PO_done; auto. rewrite Ht. cbn [app]. rewrite (poll_next_knone_cons _ _ _ _ _ (proj1 Jd) DC).
-        cbn [answer_of poll_frame is_data is_trailers into_trailers].
-        rewrite after_none_ok; [reflexivity|]. cbn. now rewrite Dr1, T1.
+        cbn [answer_of poll_frame is_data is_trailers into_trailers]. rewrite T1, (NOPANIC t Ht).
+        rewrite after_none_ok; [reflexivity | cbn; now rewrite Dr1 | apply not_incomplete; assumption].
   - inversion DP as [|? ? Hev DP']; subst.
     destruct (J_step _ _ _ _ Jd) as [(f & m & fs' & ms' & d' & -> & -> & DC & J')|(d1 & DC & J1 & Hn)].
     + eapply PO_item with (evs1 := ev :: evs); eauto. apply poll_next_kitem; [apply Jd|exact DC].
@@ -1413,6 +1433,155 @@ Proof.
   repeat split; auto.
 Qed.
 
+(* ============================ C07: never panics ======================================= *)
+(* The one reachable panic site is HeaderMap::extend when a SECOND trailers block arrives (only
+   possible when a stream is polled again after it ended, over a body that keeps producing).
+   (a) a caller that drains a stream whose trailers are still empty never reaches it;
+   (b) no run reaches it while the header entries held plus those still in the script stay
+       within the HeaderMap capacity. *)
+Lemma hm_extend_len (a b : hm) : nlen (hm_extend a b) <= nlen a + nlen b.
+Proof.
+  unfold hm_extend, nlen. rewrite app_length.
+  assert (length (filter (fun e => negb (hm_contains b (fst e))) a) <= length a)%nat.
+  { induction a as [|x a IH]; cbn; [lia|]. destruct (negb _); cbn; lia. }
+  lia.
+Qed.
+
+Lemma after_none_trailers (d : dec) r d3 : after_none d = (r, d3) ->
+  d_trailers d3 = d_trailers d \/ d_trailers d3 = None.
+Proof.
+  unfold Decoder.after_none. destruct (response_cases d) as [->|[e ->]].
+  - destruct (_ && _); intros H; injection H as <- <-; auto.
+  - intros H; injection H as <- <-. auto.
+Qed.
+
+Lemma poll_frame_end_err (d1 d2 : dec) st : poll_frame AEnd d1 = FErr st d2 -> d2 = d1.
+Proof. cbn. destruct (is_incomplete d1); [|discriminate]. intros H; now injection H as _ <-. Qed.
+
+Definition held (d : dec) : N := match d_trailers d with Some t => nlen t | None => 0 end.
+Lemma held_eq (d d' : dec) : d_trailers d' = d_trailers d -> held d' = held d.
+Proof. unfold held. now intros ->. Qed.
+Lemma knone_trailers (d d1 : dec) : decode_chunk d = KNone d1 -> d_trailers d1 = d_trailers d.
+Proof. intros H. pose proof (decode_chunk_cfg d) as C. rewrite H in C. apply C. Qed.
+
+Lemma Poll_load evs g d r d' evs' g' : Poll evs g d r d' evs' g' ->
+  trailer_load d evs <= HM_MAX_NAMES ->
+  r <> Panic /\ trailer_load d' evs' <= trailer_load d evs.
+Proof.
+  unfold trailer_load. fold (held d) (held d').
+  induction 1; intros B.
+  - split; [destruct st; discriminate|]. apply N.eq_le_incl. reflexivity.
+  - split; [discriminate|]. pose proof (decode_chunk_cfg d) as C. rewrite H0 in C.
+    rewrite (held_eq d d1) by apply C. lia.
+  - split; [discriminate|]. pose proof (decode_chunk_cfg d) as C. rewrite H0 in C.
+    change (held (with_state d1 (Error None))) with (held d1). rewrite (held_eq d d1) by apply C. lia.
+  - apply poll_frame_end_none in H1 as (-> & _ & _).
+    split; [destruct (after_none_cases _ _ _ H2) as [->|[e [-> _]]]; discriminate|].
+    pose proof (knone_trailers _ _ H0) as T.
+    destruct (after_none_trailers _ _ _ H2) as [E|E]; unfold held; rewrite E; [rewrite T; lia|].
+    destruct (d_trailers d); lia.
+  - apply poll_frame_end_err in H1 as ->. split; [discriminate|].
+    change (held (with_state d1 (Error None))) with (held d1).
+    rewrite (held_eq d d1) by (eapply knone_trailers; eassumption). lia.
+  - apply poll_frame_pending in H1 as ->. split; [discriminate|].
+    rewrite (held_eq d d1) by (eapply knone_trailers; eassumption). cbn [trailers_in]. lia.
+  - apply poll_frame_some in H1 as (b & -> & ->). cbn [trailers_in] in *.
+    assert (E : held (with_buf d1 (d_buf d1 ++ b)) = held d).
+    { change (held (with_buf d1 (d_buf d1 ++ b))) with (held d1). apply held_eq. eapply knone_trailers; eassumption. }
+    rewrite E in IHPoll. exact (IHPoll B).
+  - split; [destruct (after_none_cases _ _ _ H2) as [->|[e [-> _]]]; discriminate|].
+    pose proof (knone_trailers _ _ H0) as T.
+    assert (L2 : held d2 + trailers_in evs <= held d + trailers_in (ev :: evs)).
+    { destruct (poll_frame_none _ _ _ H1) as (_ & _ & _ & _ & _ & _ & [(t & -> & T2)|(st & -> & ->)]).
+      - cbn [trailers_in]. unfold held. rewrite T2, <- T.
+        destruct (d_trailers d1) as [t0|]; [pose proof (hm_extend_len t0 t)|]; lia.
+      - cbn [trailers_in]. rewrite (held_eq d d1 T). lia. }
+    destruct (after_none_trailers _ _ _ H2) as [E|E]; unfold held in *; rewrite E; [lia|].
+    destruct (d_trailers d2); lia.
+  - apply poll_frame_ferr in H1 as (-> & ->). split; [discriminate|].
+    change (held (with_state (with_state d1 (Error (Some st))) (Error None))) with (held d1).
+    rewrite (held_eq d d1) by (eapply knone_trailers; eassumption). cbn [trailers_in]. lia.
+  - exfalso. apply poll_frame_panic_ev in H1 as (t & -> & X).
+    pose proof (knone_trailers _ _ H0) as T. unfold extend_may_panic, held in *. rewrite T in X.
+    cbn [trailers_in] in B. destruct (d_trailers d) as [t0|]; [lia|discriminate].
+Qed.
+
+Lemma polls_no_panic n : forall evs g d, trailer_load d evs <= HM_MAX_NAMES ->
+  ~ In Panic (fst (polls n evs g d)).
+Proof.
+  induction n as [|n IH]; intros evs g d B; cbn [Decoder.polls]; [intros []|].
+  destruct (dec_poll evs g d) as [[[r d'] evs'] g'] eqn:P. apply dec_poll_Poll in P.
+  destruct (Poll_load _ _ _ _ _ _ _ P B) as [NP L].
+  specialize (IH evs' g' d'). destruct (polls n evs' g' d') as [tr fin]. cbn [fst] in *.
+  intros [H|H]; [congruence|]. apply IH; [lia|exact H].
+Qed.
+
+Lemma drain_no_panic fuel : forall evs g d, trailer_load d evs <= HM_MAX_NAMES ->
+  ~ In Panic (fst (drain fuel evs g d)).
+Proof.
+  induction fuel as [|n IH]; intros evs g d B; cbn [Decoder.drain]; [intros []|].
+  destruct (dec_poll evs g d) as [[[r d'] evs'] g'] eqn:P. apply dec_poll_Poll in P.
+  destruct (Poll_load _ _ _ _ _ _ _ P B) as [NP L].
+  specialize (IH evs' g' d'). destruct (drain n evs' g' d') as [tr fin]. cbn [fst] in *.
+  destruct r; cbn [fst]; try (intros [H|H]; [congruence | apply IH; [lia|exact H]]).
+  intros [H|[]]. discriminate.
+Qed.
+
+Lemma Poll_fresh evs g d r d' evs' g' : Poll evs g d r d' evs' g' ->
+  d_trailers d = None ->
+  r <> Panic /\ (r = Pending \/ (exists m, r = Item (IOk m)) -> d_trailers d' = None).
+Proof.
+  induction 1; intros T.
+  - split; [destruct st; discriminate|]. intros [E|[m E]]; destruct st; discriminate.
+  - split; [discriminate|]. intros _. pose proof (decode_chunk_cfg d) as C. rewrite H0 in C.
+    destruct C as (C & _). congruence.
+  - split; [discriminate|]. intros [E|[m E]]; discriminate.
+  - destruct (after_none_cases _ _ _ H2) as [->|[e [-> _]]]; (split; [discriminate|]); intros [E|[m E]]; discriminate.
+  - split; [discriminate|]. intros [E|[m E]]; discriminate.
+  - split; [discriminate|]. intros _. rewrite (knone_trailers _ _ H0). exact T.
+  - apply poll_frame_some in H1 as (b & -> & ->). apply IHPoll. cbn. rewrite (knone_trailers _ _ H0). exact T.
+  - destruct (after_none_cases _ _ _ H2) as [->|[e [-> _]]]; (split; [discriminate|]); intros [E|[m E]]; discriminate.
+  - split; [discriminate|]. intros [E|[m E]]; discriminate.
+  - exfalso. apply poll_frame_panic_ev in H1 as (t & -> & X).
+    rewrite (knone_trailers _ _ H0), T in X. discriminate.
+Qed.
+
+Lemma drain_no_panic_fresh fuel : forall evs g d, d_trailers d = None \/ is_error_none d ->
+  ~ In Panic (fst (drain fuel evs g d)).
+Proof.
+  induction fuel as [|n IH]; intros evs g d Hd; cbn [Decoder.drain]; [intros []|].
+  destruct (dec_poll evs g d) as [[[r d'] evs'] g'] eqn:P. apply dec_poll_Poll in P.
+  destruct Hd as [T|E].
+  - destruct (Poll_fresh _ _ _ _ _ _ _ P T) as [NP K].
+    pose proof (Poll_err_state _ _ _ _ _ _ _ P) as ES.
+    specialize (IH evs' g' d'). destruct (drain n evs' g' d') as [tr fin]. cbn [fst] in *.
+    destruct r as [|[m|st]| |]; cbn [fst].
+    + intros [H|H]; [discriminate|]. apply IH; [left; apply K; now left | exact H].
+    + intros [H|H]; [discriminate|]. apply IH; [left; apply K; right; eauto | exact H].
+    + intros [H|H]; [discriminate|]. apply IH; [right; eapply ES; reflexivity | exact H].
+    + intros [H|[]]. discriminate.
+    + congruence.
+  - destruct (Poll_from_error_none _ _ _ _ _ _ _ P E) as (-> & _). cbn [fst]. intros [H|[]]. discriminate.
+Qed.
+
+(* C07 dec_no_panic.  The Rust panic sites are get_u8 / get_u32 on a short buffer, the slice
+   [0..len] in decompress, the unwraps on Frame::into_data / into_trailers, panic!("unexpected
+   frame") - all unreachable from ANY state - and HeaderMap::extend on a second trailers block,
+   which needs more header entries than http's HeaderMap can hold:
+   (1) a caller that drains a stream that has not yet received trailers (in particular a fresh
+       one) never panics, whatever the script;
+   (2) polling on, from any state, never panics as long as the header entries already held
+       plus all trailer entries still in the script are at most 24576. *)
+Theorem dec_no_panic : forall n evs g (d : dec),
+  (d_trailers d = None -> ~ In Panic (fst (drain n evs g d))) /\
+  (trailer_load d evs <= HM_MAX_NAMES ->
+     ~ In Panic (fst (polls n evs g d)) /\ ~ In Panic (fst (drain n evs g d))).
+Proof.
+  intros. split.
+  - intros T. apply drain_no_panic_fresh. now left.
+  - intros B. split; [now apply polls_no_panic | now apply drain_no_panic].
+Qed.
+
 (* ============================ C07: truncation is reported =============================== *)
 Lemma read_body_none_wait (d d1 : dec) : read_body d = CNone d1 ->
   d1 = d /\ match d_state d with ReadBody _ len => nlen (d_buf d) < len | _ => True end.
@@ -1438,8 +1607,26 @@ Proof.
   - apply read_body_none_wait in IC as [-> W]. exact W.
 Qed.
 
+Lemma data_then_end_of_dp evs : only_dp evs -> data_then_end evs.
+Proof.
+  induction 1 as [|e r He _ IH]; [exact Logic.I|]. cbn. destruct e; try destruct He; exact IH.
+Qed.
+
+Lemma data_then_end_app a : forall b, data_then_end (a ++ b) -> data_then_end b.
+Proof.
+  induction a as [|e a IH]; intros b H; [exact H|]. cbn [app data_then_end] in H.
+  destruct e; try (apply IH; exact H); try destruct H.
+  destruct (a ++ b) eqn:E; [|destruct H]. apply app_eq_nil in E as [_ ->]. exact Logic.I.
+Qed.
+
+Lemma not_incomplete_rest (d : dec) : non_error d -> is_incomplete d = false -> rest d = [].
+Proof.
+  unfold non_error, is_incomplete, rest. destruct (d_state d); [|now rewrite orb_true_r|intros []].
+  destruct (d_buf d); [reflexivity|discriminate].
+Qed.
+
 Lemma Poll_done_plain e0 evs g d r d' evs' g' : Poll evs g d r d' evs' g' ->
-  forall D fs oks, r = Done -> non_error d -> only_dp evs -> Forall ev_ok evs -> Inv e0 d D fs oks ->
+  forall D fs oks, r = Done -> non_error d -> data_then_end evs -> Forall ev_ok evs -> Inv e0 d D fs oks ->
   evs' = [] /\ D ++ data_of evs = concat (map raw fs).
 Proof.
   induction 1; intros D fs oks RD NE DP EO I; try discriminate.
@@ -1453,19 +1640,27 @@ Proof.
   - (* a data chunk, then on *)
     apply poll_frame_some in H1 as (b & -> & ->).
     destruct (knone_inv _ _ _ _ _ _ I H H0) as (I1 & NE1 & SC).
-    inversion EO as [|? ? Hb EO']; subst. inversion DP as [|? ? _ DP']; subst. cbn [ev_ok] in Hb.
+    inversion EO as [|? ? Hb EO']; subst. cbn [data_then_end] in DP. cbn [ev_ok] in Hb.
     assert (I2 : Inv e0 (with_buf d1 (d_buf d1 ++ b)) (D ++ b) fs oks).
     { destruct I1 as (E & F & F2 & tail & HD & HT). split; [exact E|]. split; [exact F|]. split; [exact F2|].
       exists (tail ++ b). split; [now rewrite HD, <- app_assoc|]. intros _.
       destruct (HT NE1) as (T & W & B). rewrite rest_push by exact NE1. rewrite T.
       split; [reflexivity|]. split; [exact W|]. rewrite bytes_ok_app, <- T, B. exact Hb. }
     assert (NE2 : non_error (with_buf d1 (d_buf d1 ++ b))) by exact NE1.
-    destruct (IHPoll _ _ _ eq_refl NE2 DP' EO' I2) as (E' & HD).
+    destruct (IHPoll _ _ _ eq_refl NE2 DP EO' I2) as (E' & HD).
     split; [exact E'|].
     rewrite <- HD. unfold data_of. cbn [map concat]. now rewrite app_assoc.
-  - (* trailers / cancelled: not in a data-only script *)
-    exfalso. inversion DP as [|? ? Hev _]; subst.
-    destruct (poll_frame_none _ _ _ H1) as (_ & _ & _ & _ & _ & _ & [(t & -> & _)|(st & -> & _)]); exact Hev.
+  - (* the trailers frame: a clean end only if no message is cut *)
+    destruct (knone_inv _ _ _ _ _ _ I H H0) as (I1 & NE1 & SC).
+    destruct (poll_frame_none _ _ _ H1) as (E2 & S2 & B2 & M2 & _ & DE & [(t & -> & T2)|(st & -> & _)]);
+      [|destruct DP].
+    cbn [data_then_end] in DP. destruct evs; [|destruct DP]. subst r.
+    apply after_none_done in H2 as (-> & [TN|Inc]); [rewrite T2 in TN; discriminate|].
+    split; [reflexivity|]. rewrite DE, app_nil_r.
+    destruct I1 as (E & F & F2 & tail & HD & HT). destruct (HT NE1) as (T & _ & _).
+    rewrite HD, T. replace (rest d1) with (rest d2) by (apply rest_ext; assumption).
+    rewrite not_incomplete_rest; [apply app_nil_r | | exact Inc].
+    unfold non_error in *. now rewrite S2.
 Qed.
 
 Lemma polls_live n : forall evs g d trace d' evs' g',
@@ -1483,13 +1678,16 @@ Qed.
 Lemma only_dp_app a b : only_dp (a ++ b) -> only_dp a /\ only_dp b.
 Proof. unfold only_dp. apply Forall_app. Qed.
 
-(* C07 dec_truncation_detected: if a body made of data chunks only (any chunking, any Pending)
-   ends plainly and the drain of a fresh stream reaches Ready(None) WITHOUT an error, then every
-   complete frame of the input was delivered, in order, and the input is exactly a whole number
-   of frames.  Contrapositive: every plain truncation inside a frame - also right after the
-   five prefix bytes, F-C07e fixed by 735d8fef - is reported as an error. *)
+(* C07 dec_truncation_detected: a body of data chunks (any chunking, Pending anywhere) that ends
+   plainly OR with one trailers frame (whatever it carries).  If the drain of a fresh stream
+   reaches Ready(None) WITHOUT an error, then all events were consumed, every complete frame of
+   the input was delivered, in order, and the input is exactly a whole number of frames.
+   Contrapositive: EVERY truncation inside a frame ends with an error - 'Unexpected EOF' at the
+   plain end of the body (also right after the five prefix bytes, F-C07e) and at a trailers
+   frame with a non-error status (F-C07f, fix c94b9d29), or the trailers' own error status
+   when they carry one (response() takes precedence). *)
 Theorem dec_truncation_detected : forall fuel evs dir encoding max trace d' evs' g',
-  Forall ev_ok evs -> only_dp evs ->
+  Forall ev_ok evs -> data_then_end evs ->
   drain fuel evs (mkB 0) (dec_new dir encoding max) = (trace, Some (d', evs', g')) ->
   (forall st, ~ In (Item (IErr st)) trace) ->
   evs' = [] /\
@@ -1501,16 +1699,16 @@ Proof.
   destruct (drain_Some _ _ _ _ _ _ _ _ DR) as (pre & d1 & evs1 & g1 & -> & ND & PL & DPoll & _).
   destruct (polls_inv encoding _ _ _ _ _ _ _ _ _ _ _ (Inv_new dir encoding max) EO PL) as (used & fs & E & I).
   cbn [app] in I. subst evs.
-  apply Forall_app in EO as [_ EO1]. apply only_dp_app in DP as [_ DP1].
+  apply Forall_app in EO as [_ EO1]. apply data_then_end_app in DP. rename DP into DP1.
   assert (NE1 : non_error d1).
   { eapply polls_live; [exact PL | exact Logic.I |].
     apply Forall_forall. intros r Hr.
-    pose proof (polls_no_panic (length pre) (used ++ evs1) (mkB 0) (dec_new dir encoding max)) as NP.
-    rewrite PL in NP. cbn [fst] in NP.
+    pose proof (drain_no_panic_fresh fuel (used ++ evs1) (mkB 0) (dec_new dir encoding max) (or_introl eq_refl)) as NP.
+    rewrite DR in NP. cbn [fst] in NP.
     destruct r as [|[m|st]| |]; eauto.
     - exfalso. apply (NoErr st). apply in_or_app. now left.
     - exfalso. exact (ND Hr).
-    - exfalso. exact (NP Hr). }
+    - exfalso. apply NP. apply in_or_app. now left. }
   apply dec_poll_Poll in DPoll.
   destruct (Poll_done_plain encoding _ _ _ _ _ _ _ DPoll _ _ _ eq_refl NE1 DP1 EO1 I) as (E' & HD).
   split; [exact E'|].
@@ -1518,6 +1716,27 @@ Proof.
   pose proof (frames_raws fs [] F) as FR. rewrite app_nil_r in FR. cbn in FR. rewrite app_nil_r in FR.
   rewrite FR, oks_of_app. cbn [oks_of flat_map]. rewrite app_nil_r.
   split; [exact F2|reflexivity].
+Qed.
+
+Lemma err_dec (trace : list pres) :
+  (exists st, In (Item (IErr st)) trace) \/ (forall st, ~ In (Item (IErr st)) trace).
+Proof.
+  induction trace as [|r t [[st H]|H]]; [right; intros st []| left; exists st; now right |].
+  destruct r as [|[m|st]| |]; try (right; intros st' [X|X]; [discriminate | exact (H st' X)]).
+  left. exists st. now left.
+Qed.
+
+(* the contrapositive, as a positive statement: a data (+ trailers) body that is cut inside a
+   frame makes the drain yield an error *)
+Theorem dec_truncation_is_error : forall fuel evs dir encoding max trace fin,
+  Forall ev_ok evs -> data_then_end evs ->
+  drain fuel evs (mkB 0) (dec_new dir encoding max) = (trace, Some fin) ->
+  data_of evs <> concat (map raw (frames (data_of evs))) ->
+  exists st, In (Item (IErr st)) trace.
+Proof.
+  intros fuel evs dir encoding max trace [[d' evs'] g'] EO DP DR NW.
+  destruct (err_dec trace) as [E|NE]; [exact E|]. exfalso. apply NW.
+  now destruct (dec_truncation_detected _ _ _ _ _ _ _ _ _ EO DP DR NE) as (_ & _ & W).
 Qed.
 
 (* ---------- with the round-trip laws of the message codec and the compressor ---------- *)
